@@ -310,6 +310,25 @@ theorem C14_set_hook_installs (w : Watcher) (h : String) (outs : List String) (i
     (applyOpt (.hook h outs ig) w).hooks.lookup h = some { outs := outs, ignore := ig } := by
   simp [applyOpt, List.lookup]
 
+/-- **a hook replacement that is refused changes nothing**: when the value of `set <w> hooks.<name>` cannot be read (it is no
+    string, its flag is no boolean word, or the dotted name does not resolve) `Watcher.set_opt` raises before anything is
+    written — the hook that was installed stays installed, with the flag it had, and no `updated` event is published. -/
+theorem C14_refused_set_hook_changes_nothing (u : Nat) (key : String) (val : JVal) (s : State)
+    (hk : key.startsWith "hooks" = true) (h : hookChange key val = none) :
+    setOpt u key val s = (false, s) := by
+  have hne : ¬ key = "numprocesses" := by
+    intro e; rw [e] at hk; revert hk; decide +kernel
+  unfold setOpt
+  rw [ite_run, if_neg hne]
+  have ho : optChange key val = none := by
+    unfold optChange; rw [if_pos hk]; exact h
+  rw [ho]; rfl
+
+example : hookChange "hooks.before_start" (.int 5) = none ∧ ("hooks.before_start".startsWith "hooks") = true := by
+  constructor
+  · rfl
+  · decide +kernel
+
 -- F32 (repaired): a hook installed with the flag, then replaced without it: the new hook's exception counts as false again
 example : ((applyOpt (.hook "before_start" ["raise"] false) (applyOpt (.hook "before_start" ["raise"] true) { name := "w" })).ignoreFail.contains
     "before_start") = false := by decide +kernel
